@@ -664,6 +664,8 @@ def _c06_jobs(tier):
         jobs.append(("c06_freeze", list(args) + ["--deadline", fdl]))
     z("--probe", "pthread", "--depth", 8 if q else 14)
     z("--probe", "pthread", "--worker", 1, "--depth", 6 if q else 9)
+    # the application freezes the worker bin itself (counting mutex on the xfer manager), forwards a control, thaws
+    z("--probe", "pthread", "--worker", 1, "--binfreeze", 1, "--depth", 7 if q else 9)
     n = 4 if q else 12                     # no merging of states: the canonical form is the history
     for i in range(n):
         z("--probe", "pthread", "--history-states", "--depth", 4 if q else 6, "--shard", "%d/%d" % (i, n))
